@@ -1,12 +1,126 @@
-import AasVerif.Model.Yielding
+import AasVerif.Lemmas.Yielding.Linearize
+import AasVerif.Lemmas.Yielding.SubSim
 /-!
-# C26 — Yield-flow linearization preserves behaviour (theorems under construction)
+# C26 — Yield-flow linearization preserves behaviour
+
+Models: `AasVerif.Yielding` (`Model/Yielding.lean`): `Flow.run` (structured semantics),
+`linearize … toSubroutines` (`yielding/linear.py`), `runSub` (the state machine that
+`cpp/yielding.py` emits), `runFlat` (goto machine over an intermediate stage).
 -/
 namespace AasVerif.Props.C26
 open AasVerif AasVerif.Yielding
 
-/-- `linearize_to_subroutines([]) = []` and the emitted body is `// Intentionally empty.` -/
-theorem empty_flow (orc : List Bool) : runSub (toSubroutines []) orc = Flow.run [] orc := by
-  simp [toSubroutines, runSub, runSubFuel, Flow.run]
+/-- `_linearize_control_flow` is correct: the goto machine over the linearized statements
+terminates (for every large enough step budget) with exactly the structured result. -/
+theorem linearize_correct (flow : List Node) (hwf : wfSeq flow = true) (orc : List Bool) :
+    ∃ n, ∀ m, n ≤ m → runFlatFuel m (linearize flow) orc = Flow.run flow orc :=
+  (linearize_conv flow hwf orc).of_ge
+
+/-- Labels after `_linearize_control_flow` are exactly the positions `0,1,…`. -/
+theorem linearize_labels_are_positions (flow : List Node) (hwf : wfSeq flow = true) :
+    (linearize flow).map (·.label) = (List.range (linearize flow).length).map some := by
+  have := linearize_labels flow hwf
+  simpa [LabelsFrom, List.range_eq_range'] using this
+
+/-- Translation validation of the label/no-op passes: whenever `simCheck` accepts a position map,
+the rewritten statements behave like the original ones (same result within the same budget). -/
+theorem passes_preserve (C C' : List Stmt) (phi : List Nat) (h : simCheck C C' phi = true)
+    (n : Nat) (orc : List Bool) (r : Result) (hr : runFlatFuel n C orc = r)
+    (hok : r.status ≠ .crash .outOfFuel) : runFlatFuel n C' orc = r := by
+  have h0 : phiAt phi 0 = 0 := by
+    simp only [simCheck, Bool.and_eq_true, beq_iff_eq] at h
+    exact h.1.1
+  have := simCheck_run h n 0 orc r (Nat.zero_le _) hr hok
+  rwa [h0] at this
+
+/-- `_split_in_subroutines` + the emitted state machine: for subroutines of the checked shape the
+state machine computes what the goto machine over the concatenated statements computes, except
+that a clean end is only reached after a final `Command` (otherwise the C++ falls through into
+`default:` and throws: `endStatus`). -/
+theorem split_correct (subs : List (List Stmt)) (h : subsCheck subs = true) (hne : subs ≠ [])
+    (n : Nat) (orc : List Bool) (r : Result) (hr : runFlatFuel n subs.flatten orc = r)
+    (hok : r.status ≠ .crash .outOfFuel) :
+    ∃ k, ∀ m, k ≤ m → runSubFuel m subs orc = r.withEnd (endStatus subs.flatten) := by
+  have hs := SubsOk.of_check h
+  cases subs with
+  | nil => exact absurd rfl hne
+  | cons sub rest =>
+    have hpos : Pos (sub :: rest) 0 0 0 :=
+      ⟨sub, by simp, hs.ne_nil (i := 0) (by simp), by simp [start_zero]⟩
+    have := (sub_sim hs n 0 orc r hr hok 0 0 hpos).of_ge
+    simpa [runSubFuel] using this
+
+/-- **Main theorem (partial: decidable hypothesis `pipelineCheck flow`, evaluated by the driver
+on every correspondence input).** The state machine over `linearize_to_subroutines(flow)`
+terminates with the events of the structured run, and with its status, except that `ended`
+becomes `endStatus` of the emitted code. -/
+theorem pipeline_correct_partial (flow : List Node) (hwf : wfSeq flow = true)
+    (hchk : pipelineCheck flow = true) (orc : List Bool) :
+    ∃ k, ∀ m, k ≤ m → runSubFuel m (toSubroutines flow) orc =
+      (Flow.run flow orc).withEnd (endStatus (toSubroutines flow).flatten) := by
+  cases flow with
+  | nil =>
+    refine ⟨0, fun m _ => ?_⟩
+    simp [toSubroutines, runSubFuel, Flow.run, Result.withEnd, endStatus]
+  | cons nd rest =>
+    simp only [pipelineCheck, Bool.and_eq_true, beq_iff_eq] at hchk
+    obtain ⟨⟨hsim, hsubs⟩, hflat⟩ := hchk
+    obtain ⟨n, hn, hok⟩ := simCheck_conv hsim (linearize_conv (nd :: rest) hwf orc)
+    have hts : toSubroutines (nd :: rest) = split (fixLabels (compress (linearize (nd :: rest)))) := by
+      simp [toSubroutines]
+    rw [hts]
+    by_cases hne : split (fixLabels (compress (linearize (nd :: rest)))) = []
+    · rw [hne] at hflat ⊢
+      simp only [List.flatten_nil] at hflat
+      rw [← hflat] at hn
+      refine ⟨0, fun m _ => ?_⟩
+      have : Flow.run (nd :: rest) orc = ⟨[], .ended⟩ := by
+        rw [← hn]
+        exact runM_flat_end (C := []) (by simp) (by rw [hn]; exact hok)
+      simp [runSubFuel, this, Result.withEnd, endStatus]
+    · rw [← hflat] at hn
+      exact split_correct _ hsubs hne n orc _ hn hok
+
+/-- Same sequence of commands, condition evaluations and yields (the statement of C26),
+for every sequence of condition outcomes. -/
+theorem pipeline_events_partial (flow : List Node) (hwf : wfSeq flow = true)
+    (hchk : pipelineCheck flow = true) (orc : List Bool) :
+    ∃ k, ∀ m, k ≤ m → (runSubFuel m (toSubroutines flow) orc).events = (Flow.run flow orc).events := by
+  obtain ⟨k, hk⟩ := pipeline_correct_partial flow hwf hchk orc
+  refine ⟨k, fun m hm => ?_⟩
+  rw [hk m hm]
+  unfold Result.withEnd
+  split <;> rfl
+
+/-- Subroutine labels are `0,1,…,k-1`, only first statements are labelled (the `@require` of
+`Subroutine` and the `@ensure` of `linearize_to_subroutines` hold). -/
+theorem labels_consecutive_partial (flow : List Node) (hchk : pipelineCheck flow = true)
+    (hne : flow ≠ []) :
+    ∀ i sub, (toSubroutines flow)[i]? = some sub → subLabel sub = some i := by
+  simp only [pipelineCheck, Bool.and_eq_true, beq_iff_eq] at hchk
+  have hts : toSubroutines flow = split (fixLabels (compress (linearize flow))) := by
+    cases flow with
+    | nil => exact absurd rfl hne
+    | cons _ _ => simp [toSubroutines]
+  rw [hts]
+  exact (SubsOk.of_check hchk.1.2).lab
+
+/-- The full statement including the final status is false: a flow that does not end with a
+`Command` makes the emitted C++ fall through into `default:` (`std::logic_error`). -/
+theorem pipeline_full_fails :
+    ¬ ∀ (flow : List Node) (orc : List Bool), wfSeq flow = true →
+      runSub (toSubroutines flow) orc = Flow.run flow orc := by
+  intro h
+  have h1 := h [.yield] [] rfl
+  have h2 : runSub (toSubroutines [.yield]) [] = ⟨[.yield], .crash .invalidState⟩ := by decide
+  have h3 : Flow.run [.yield] [] = ⟨[.yield], .ended⟩ := by simp [Flow.run, Result.cons]
+  rw [h2, h3] at h1
+  cases h1
+
+/-- non-vacuity: a flow with nested loops, an empty `or_else` and a trailing `yield` meets the
+hypotheses -/
+example : wfSeq [.ifElse true 1 [.yield] [], .whileLoop 2 [.whileLoop 3 []], .yield] = true ∧
+    pipelineCheck [.ifElse true 1 [.yield] [], .whileLoop 2 [.whileLoop 3 []], .yield] = true := by
+  decide
 
 end AasVerif.Props.C26
